@@ -21,7 +21,7 @@ from pymtl3.datatypes import Bits, is_bitstruct_inst
 from pymtl3.extra.pypy import custom_exec
 
 from .ComponentLevel1 import ComponentLevel1
-from .ComponentLevel2 import ComponentLevel2, compiled_re
+from .ComponentLevel2 import ComponentLevel2, _dedent_block_src, compiled_re
 from .Connectable import (
     Connectable,
     Const,
@@ -78,7 +78,8 @@ class ComponentLevel3( ComponentLevel2 ):
 
     srcs, line = inspect.getsourcelines( lamb )
 
-    src  = compiled_re.sub( r'\2', ''.join(srcs) ).lstrip(' ')
+    # (not compiled_re: it also strips the blanks before 'default', '@' ...)
+    src  = _dedent_block_src( ''.join(srcs) )
     root = ast.parse(src)
     assert isinstance( root, ast.Module ) and len(root.body) == 1, "We only support single-statement lambda."
 
